@@ -15,6 +15,11 @@ CELLS = {
     "lammps-triclinic-negative-tilt": [(10 * G, 0, 0), (-3 * G, 9 * G, 0), (2 * G, -2 * G, 8 * G)],
     "arbitrary-orientation": [(6 * G, 8 * G, 0), (-8 * G, 6 * G, 1 * G), (1 * G, 2 * G, 9 * G)],
     "upper-triangular": [(10 * G, 4 * G, 1 * G), (0, 10 * G, 2 * G), (0, 0, 10 * G)],
+    # all angles 90 degrees, yet not the coordinate axes
+    "rotated-orthorhombic": [(6 * G, 8 * G, 0), (-12 * G, 9 * G, 0), (0, 0, 11 * G)],
+    "rotated-cubic": [(6 * G, 0, 8 * G), (0, 10 * G, 0), (-8 * G, 0, 6 * G)],
+    "permuted-axes": [(0, 10 * G, 0), (0, 0, 11 * G), (12 * G, 0, 0)],
+    "negative-diagonal": [(-10 * G, 0, 0), (0, -11 * G, 0), (0, 0, 12 * G)],
 }
 
 
@@ -127,7 +132,7 @@ def main(tier, seed, replay=None):
                 run.notes.append("model/implementation disagreement on case %d (%s %s)" % (f[1], cases[f[1]][2], cases[f[1]][1]))
     run.settle_broken(found_input)
     return run.finish(
-        rule="cells: orthorhombic, LAMMPS-oriented triclinic (both tilt signs), arbitrarily oriented, upper-triangular; replication factors from "
+        rule="cells: orthorhombic, LAMMPS-oriented triclinic (both tilt signs), arbitrarily oriented, upper-triangular, rotated orthorhombic / cubic, permuted axes, negative diagonal; replication factors from "
              "{1,2,3}^3 (all 27 for the first structure of each cell, a sample for the others in the quick tier); structures with 1-4 atoms, all four "
              "term kinds incl. impropers, extra columns, with and without coefficient tables, and a bond-free structure with angles/impropers.  "
              "Compared with the Coq model state-for-state and with the property evaluated directly (multisets of atoms and of terms by position).  "
